@@ -75,7 +75,7 @@ def main():
         args.json,
     )
 
-    if len(list(filter(None, [file, cmd, mod, eval_]))) != 1:
+    if len([s for s in [file, cmd, mod, eval_] if s is not None]) != 1:
         parser.error("Must specify exactly one of file, cmd, eval, or mod")
 
     console = Console()
